@@ -163,6 +163,16 @@ type v06Park struct {
 	returned chan struct{}
 }
 
+// v06ELPark: the next EventLogger.TCPError call for `label` parks until released.
+// TCPError is called by handleTCPRequest after the two-way copy returned and
+// BEFORE it closes the target conn and the stream, without any lock held.
+type v06ELPark struct {
+	label    string
+	armed    bool
+	parkedCh chan struct{}
+	release  chan struct{}
+}
+
 type v06World struct {
 	mu        sync.Mutex
 	cond      *sync.Cond
@@ -170,6 +180,8 @@ type v06World struct {
 	fail      string
 	ended     bool
 	hasLogger bool
+	hasEL     bool // an EventLogger is configured (fake with a yield point in TCPError)
+	elPark    *v06ELPark
 	fastOpen  bool
 	chunkMax  int64
 	users     []*v06User
@@ -589,6 +601,36 @@ func (l *v06Logger) UntraceStream(stream HyStream) {
 	w.cond.Broadcast()
 }
 
+type v06EventLogger struct{ w *v06World }
+
+func (l *v06EventLogger) Connect(addr net.Addr, id string, tx uint64)                 {}
+func (l *v06EventLogger) Disconnect(addr net.Addr, id string, err error)              {}
+func (l *v06EventLogger) TCPRequest(addr net.Addr, id, reqAddr string)                {}
+func (l *v06EventLogger) UDPRequest(addr net.Addr, id string, sid uint32, req string) {}
+func (l *v06EventLogger) UDPError(addr net.Addr, id string, sid uint32, err error)    {}
+func (l *v06EventLogger) TCPError(addr net.Addr, id, reqAddr string, err error) {
+	w := l.w
+	w.mu.Lock()
+	note := "nil"
+	if err != nil {
+		note = fmt.Sprintf("%T", err)
+	}
+	if p := w.elPark; p != nil && p.armed && p.label == reqAddr {
+		p.armed = false
+		w.evLocked("tcpError", reqAddr, 0, 0, note+" PARKED")
+		w.cond.Broadcast()
+		w.mu.Unlock()
+		close(p.parkedCh)
+		<-p.release
+		w.mu.Lock()
+		w.evLocked("tcpError", reqAddr, 0, 0, "released")
+		w.mu.Unlock()
+		return
+	}
+	w.evLocked("tcpError", reqAddr, 0, 0, note)
+	w.mu.Unlock()
+}
+
 // ------------------------------------------------------------------ environment
 
 func (w *v06World) addUser(vetoAt int, sticky bool) *v06User {
@@ -605,6 +647,13 @@ func (w *v06World) addConn(u *v06User, idx int, saltC, saltT uint64) *v06Conn {
 	w.conns[c.label] = c
 	w.order = append(w.order, c)
 	return c
+}
+
+// addConnLive registers a proxied connection while the case is running.
+func (w *v06World) addConnLive(u *v06User, idx int, saltC, saltT uint64) *v06Conn {
+	w.mu.Lock()
+	defer w.mu.Unlock()
+	return w.addConn(u, idx, saltC, saltT)
 }
 
 // start brings up one real server and one real client per user on loopback.
@@ -626,6 +675,9 @@ func (w *v06World) start() {
 	}
 	if w.hasLogger {
 		cfg.TrafficLogger = &v06Logger{w}
+	}
+	if w.hasEL {
+		cfg.EventLogger = &v06EventLogger{w}
 	}
 	s, err := NewServer(cfg)
 	if err != nil {
